@@ -1,31 +1,42 @@
-//! C05 probe (not part of any check's pass/fail path by itself): what does a node do when, while it
-//! is NOT awaiting a revoke_and_ack, the peer's channel_reestablish claims
-//! `next_local_commitment_number = (number of the last commitment_signed we sent)`, i.e. one less
-//! than what an in-sync peer says?
+//! C05 probe: what does a node do when, while it is NOT awaiting a revoke_and_ack, the peer's
+//! channel_reestablish claims `next_local_commitment_number = (number of the last
+//! commitment_signed we sent)`, i.e. one less than what an in-sync peer says?
 //!
-//! Output: lines starting with `P ` describing signer calls, numbers and messages.
+//! `h_reest_probe a`: the peer then stays silent and the node makes an ordinary update.
+//! `h_reest_probe b`: the peer (unmodified code as well) accepts what it is sent; its new holder
+//!                    commitment then confirms on the node's chain.
+//! Output: lines starting with `P `.
+use bitcoin::hashes::Hash;
 use bitcoin::secp256k1::PublicKey;
 use lightning::ln::functional_test_utils::*;
 use lightning::ln::msgs::{BaseMessageHandler, ChannelMessageHandler, Init, MessageSendEvent};
+use lightning::ln::types::ChannelId;
 use lightning::ln::verif_hooks as vh;
-use lightning::types::features::InitFeatures;
+use lightning::routing::router::{Path, PaymentParameters, Route, RouteHop, RouteParameters};
 
-fn view(nodes: &Vec<Node>, n: usize, ids: &[PublicKey; 2], chan: &lightning::ln::types::ChannelId) -> String {
+fn view(nodes: &Vec<Node>, n: usize, ids: &[PublicKey; 2], chan: &ChannelId) -> String {
 	match vh::revocation_view(nodes[n].node, &ids[1 - n], chan) {
 		Some((_, v)) => format!(
-			"hn={} cn={} aw={} dc={} mon={}",
-			v.holder_next, v.counterparty_next, v.awaiting_remote_revoke, v.peer_disconnected, v.monitor_update_in_progress
+			"holder_next={} counterparty_next={} awaiting_remote_revoke={} disconnected={}",
+			v.holder_next, v.counterparty_next, v.awaiting_remote_revoke, v.peer_disconnected
 		),
-		None => "gone".to_string(),
+		None => "channel gone from the manager".to_string(),
 	}
 }
 
-fn dump_log(tag: &str) {
+fn dump_log(tag: &str, ids: &[usize; 2]) {
 	for c in vh::signer_log::take() {
+		let n = if c.state_id == ids[0] {
+			0
+		} else if c.state_id == ids[1] {
+			1
+		} else {
+			9
+		};
 		println!(
-			"P {} signer state_id={:x} {} {} {}",
+			"P [{}] signer of node{}: {}({}) {}",
 			tag,
-			c.state_id & 0xffff,
+			n,
 			c.kind,
 			c.number,
 			c.commitment_txid.map(|t| t.to_string()).unwrap_or_default()
@@ -34,68 +45,86 @@ fn dump_log(tag: &str) {
 }
 
 fn main() {
+	let mode = std::env::args().nth(1).unwrap_or_else(|| "a".to_string());
 	let chanmon_cfgs = create_chanmon_cfgs(2);
 	let node_cfgs = create_node_cfgs(2, &chanmon_cfgs);
 	let node_chanmgrs = create_node_chanmgrs(2, &node_cfgs, &[None, None]);
 	let nodes = create_network(2, &node_cfgs, &node_chanmgrs);
+	*nodes[0].connect_style.borrow_mut() = ConnectStyle::BestBlockFirst;
+	*nodes[1].connect_style.borrow_mut() = ConnectStyle::BestBlockFirst;
 	let ids = [nodes[0].node.get_our_node_id(), nodes[1].node.get_our_node_id()];
+	nodes[0].keys_manager.set_next_keys_id([0xc0; 32]);
+	nodes[1].keys_manager.set_next_keys_id([0xc1; 32]);
 	let (_, _, chan_id, _) = create_announced_chan_between_nodes_with_value(&nodes, 0, 1, 1_000_000, 400_000_000);
-	// one complete payment so that numbers have advanced, then leave one HTLC pending 0 -> 1
+	let mut sid = [0usize; 2];
+	for n in 0..2 {
+		use lightning::sign::SignerProvider;
+		let (kid, _) = vh::revocation_view(nodes[n].node, &ids[1 - n], &chan_id).unwrap();
+		let s = nodes[n].keys_manager.derive_channel_signer(kid);
+		sid[n] = std::sync::Arc::as_ptr(&s.state) as usize;
+	}
+	// one complete payment so that numbers have advanced, then one HTLC 0 -> 1 left pending
 	let (preimage, _, _, _) = route_payment(&nodes[0], &[&nodes[1]], 5_000_000);
 	claim_payment(&nodes[0], &[&nodes[1]], preimage);
 	let _pending = route_payment(&nodes[0], &[&nodes[1]], 7_000_000);
 	let _ = vh::signer_log::take();
-	println!("P before node0 {}", view(&nodes, 0, &ids, &chan_id));
-	println!("P before node1 {}", view(&nodes, 1, &ids, &chan_id));
-	let mon_updates_before = nodes[0].chain_monitor.added_monitors.lock().unwrap().len();
+	println!("P before: node0 {}", view(&nodes, 0, &ids, &chan_id));
+	println!("P before: node1 {}", view(&nodes, 1, &ids, &chan_id));
+	let mons_before = nodes[0].chain_monitor.added_monitors.lock().unwrap().len();
 
 	nodes[0].node.peer_disconnected(ids[1]);
 	nodes[1].node.peer_disconnected(ids[0]);
 	let init = |n: usize| Init { features: nodes[n].node.init_features(), networks: None, remote_network_address: None };
 	nodes[0].node.peer_connected(ids[1], &init(1), true).unwrap();
 	nodes[1].node.peer_connected(ids[0], &init(0), false).unwrap();
-	let _: InitFeatures = nodes[0].node.init_features();
-	let mut reest_1_to_0 = None;
+	let mut r10 = None;
 	for e in nodes[1].node.get_and_clear_pending_msg_events() {
 		if let MessageSendEvent::SendChannelReestablish { msg, .. } = e {
-			reest_1_to_0 = Some(msg);
+			r10 = Some(msg);
 		}
 	}
-	let _ = nodes[0].node.get_and_clear_pending_msg_events();
-	let mut msg = reest_1_to_0.expect("reestablish from node 1");
-	println!("P honest reestablish from node1: next_local={} next_remote={}", msg.next_local_commitment_number, msg.next_remote_commitment_number);
+	let mut r01 = None;
+	for e in nodes[0].node.get_and_clear_pending_msg_events() {
+		if let MessageSendEvent::SendChannelReestablish { msg, .. } = e {
+			r01 = Some(msg);
+		}
+	}
+	// node 1 gets node 0's honest reestablish: nothing to retransmit
+	nodes[1].node.handle_channel_reestablish(ids[0], &r01.unwrap());
+	let _ = nodes[1].node.get_and_clear_pending_msg_events();
+	let mut msg = r10.expect("reestablish from node 1");
+	println!(
+		"P node1's own channel_reestablish: next_local_commitment_number={} next_remote_commitment_number={}",
+		msg.next_local_commitment_number, msg.next_remote_commitment_number
+	);
 	msg.next_local_commitment_number -= 1;
-	println!("P delivered to node0 with next_local={}", msg.next_local_commitment_number);
+	println!("P delivered to node0 with next_local_commitment_number={}", msg.next_local_commitment_number);
 	nodes[0].node.handle_channel_reestablish(ids[1], &msg);
-	dump_log("during-reestablish");
-	println!("P after node0 {}", view(&nodes, 0, &ids, &chan_id));
+	dump_log("reestablish handled by node0", &sid);
 	let mut cs_msgs = Vec::new();
 	for e in nodes[0].node.get_and_clear_pending_msg_events() {
 		match e {
-			MessageSendEvent::UpdateHTLCs { updates, .. } => { cs_msgs = updates.commitment_signed.clone(); println!(
-				"P node0 sends commitment update: adds={} fulfills={} fails={} fee={} commitment_signed={}",
-				updates.update_add_htlcs.len(),
-				updates.update_fulfill_htlcs.len(),
-				updates.update_fail_htlcs.len(),
-				updates.update_fee.is_some(),
-				updates.commitment_signed.len()
-			) },
-			MessageSendEvent::SendRevokeAndACK { .. } => println!("P node0 sends revoke_and_ack"),
+			MessageSendEvent::UpdateHTLCs { updates, .. } => {
+				println!(
+					"P node0 -> node1: update_add={} update_fulfill={} update_fail={} update_fee={} commitment_signed={}",
+					updates.update_add_htlcs.len(),
+					updates.update_fulfill_htlcs.len(),
+					updates.update_fail_htlcs.len(),
+					updates.update_fee.is_some(),
+					updates.commitment_signed.len()
+				);
+				cs_msgs = updates.commitment_signed.clone();
+			},
 			MessageSendEvent::HandleError { action, .. } => println!("P node0 error action {:?}", action),
-			MessageSendEvent::SendChannelReestablish { .. } => {},
-			other => println!("P node0 sends other {:?}", std::mem::discriminant(&other)),
+			_ => {},
 		}
 	}
-	dump_log("after-events");
-	let mon_updates_after = nodes[0].chain_monitor.added_monitors.lock().unwrap().len();
-	println!("P node0 monitor updates during the exchange: {}", mon_updates_after - mon_updates_before);
-	println!("P final node0 {}", view(&nodes, 0, &ids, &chan_id));
-	let mode = std::env::args().nth(1).unwrap_or_else(|| "a".to_string());
+	dump_log("node0 events drained", &sid);
+	let mons_after = nodes[0].chain_monitor.added_monitors.lock().unwrap().len();
+	println!("P ChannelMonitorUpdates applied by node0 for this: {}", mons_after - mons_before);
+	println!("P after: node0 {}", view(&nodes, 0, &ids, &chan_id));
+
 	if mode == "a" {
-		// (a) the peer stays silent; node 0 now makes an ordinary update: it signs ANOTHER commitment
-		// transaction with the same number while the previous one and the one before are unrevoked.
-		use bitcoin::hashes::Hash;
-		use lightning::routing::router::{Path, PaymentParameters, Route, RouteHop, RouteParameters};
 		let amt = 9_000_000u64;
 		let scid = nodes[0].node.list_channels().iter().find(|d| d.channel_id == chan_id).and_then(|d| d.short_channel_id).unwrap();
 		let hops = vec![RouteHop {
@@ -112,7 +141,7 @@ fn main() {
 		let secret = nodes[1].node.create_inbound_payment_for_hash(hash, None, 7200, None, None).unwrap().0;
 		let route_params = RouteParameters::from_payment_params_and_value(PaymentParameters::from_node_id(ids[1], TEST_FINAL_CLTV), amt);
 		let route = Route { paths: vec![Path { hops, blinded_tail: None }], route_params };
-		let route_res = nodes[0]
+		let res = nodes[0]
 			.node
 			.send_payment_with_route(
 				route,
@@ -121,31 +150,54 @@ fn main() {
 				lightning::ln::channelmanager::PaymentId(hash.0),
 			)
 			.map_err(|e| format!("{:?}", e));
-		println!("P node0 send_payment: {:?}", route_res);
+		println!("P node0 send_payment (an ordinary update): {:?}", res);
 		let _ = nodes[0].node.get_and_clear_pending_msg_events();
-		dump_log("ordinary-update");
-		println!("P final node0 {}", view(&nodes, 0, &ids, &chan_id));
+		dump_log("ordinary update by node0", &sid);
+		println!("P final: node0 {}", view(&nodes, 0, &ids, &chan_id));
 	} else {
-		// (b) node 1 runs the UNMODIFIED code too: it handles its peer's reestablish, then accepts the
-		// commitment_signed; its new holder commitment is a transaction node 0's monitor was never
-		// told about. It then confirms on node 0's chain.
-		use lightning::ln::channelmanager::ChannelManager;
-		let _ = ChannelManager::<&lightning::util::test_utils::TestChainMonitor, &lightning::util::test_utils::TestBroadcaster, &lightning::util::test_utils::TestKeysInterface, &lightning::util::test_utils::TestKeysInterface, &lightning::util::test_utils::TestKeysInterface, &lightning::util::test_utils::TestFeeEstimator, &lightning::util::test_utils::TestRouter, &lightning::util::test_utils::TestMessageRouter, &lightning::util::test_utils::TestLogger>::get_our_node_id;
-		let known_before: Vec<bitcoin::Txid> = get_local_commitment_txn!(nodes[1], chan_id).iter().map(|t| t.compute_txid()).collect();
-		println!("P node1 holder commitment before: {}", known_before[0]);
+		let before = lightning::get_local_commitment_txn!(nodes[1], chan_id)[0].compute_txid();
 		let _ = vh::signer_log::take();
-		// node 1 processes node 0's honest reestablish first (it is still marked disconnected)
-		nodes[1].node.peer_disconnected(ids[0]);
-		nodes[1].node.peer_connected(ids[0], &init(0), false).unwrap();
-		let _ = nodes[1].node.get_and_clear_pending_msg_events();
-		nodes[0].node.peer_disconnected(ids[1]);
-		nodes[0].node.peer_connected(ids[1], &init(1), true).unwrap();
-		let mut r01 = None;
-		for e in nodes[0].node.get_and_clear_pending_msg_events() {
-			if let MessageSendEvent::SendChannelReestablish { msg, .. } = e { r01 = Some(msg); }
+		println!("P node1 holder commitment before: {}", before);
+		nodes[1].node.handle_commitment_signed_batch_test(ids[0], &cs_msgs);
+		dump_log("commitment_signed handled by node1", &sid);
+		let txn = lightning::get_local_commitment_txn!(nodes[1], chan_id);
+		let _ = vh::signer_log::take();
+		println!(
+			"P node1 holder commitment now:    {} ({} outputs, {} HTLC txs)",
+			txn[0].compute_txid(),
+			txn[0].output.len(),
+			txn.len() - 1
+		);
+		println!("P after: node1 {}", view(&nodes, 1, &ids, &chan_id));
+		// that transaction confirms on node 0's chain
+		nodes[0].tx_broadcaster.txn_broadcasted.lock().unwrap().clear();
+		mine_transaction(&nodes[0], &txn[0]);
+		let b = nodes[0].tx_broadcaster.txn_broadcasted.lock().unwrap().clone();
+		println!("P node0 broadcasts after that commitment confirmed: {}", b.len());
+		for t in b.iter() {
+			println!(
+				"P   tx {} spending {:?}",
+				t.compute_txid(),
+				t.input.iter().map(|i| format!("{}:{}", i.previous_output.txid, i.previous_output.vout)).collect::<Vec<_>>()
+			);
 		}
-		println!("P mode b needs a fresh run: use mode c");
-		let _ = (r01, cs_msgs.len());
+		{
+			let mon = nodes[0].chain_monitor.chain_monitor.get_monitor(chan_id).unwrap();
+			println!("P node0 claimable balances: {:?}", mon.get_claimable_balances());
+		}
+		nodes[0].tx_broadcaster.txn_broadcasted.lock().unwrap().clear();
+		connect_blocks(&nodes[0], 200);
+		let b = nodes[0].tx_broadcaster.txn_broadcasted.lock().unwrap().clone();
+		println!("P node0 broadcasts during 200 more blocks (the 7000 sat HTLC expired long ago): {}", b.len());
+		for t in b.iter() {
+			println!(
+				"P   tx {} spending {:?}",
+				t.compute_txid(),
+				t.input.iter().map(|i| format!("{}:{}", i.previous_output.txid, i.previous_output.vout)).collect::<Vec<_>>()
+			);
+		}
+		let mon = nodes[0].chain_monitor.chain_monitor.get_monitor(chan_id).unwrap();
+		println!("P node0 claimable balances: {:?}", mon.get_claimable_balances());
 	}
 	std::mem::forget(nodes);
 }
